@@ -90,7 +90,15 @@ fn hist<T: CellT + std::hash::Hash>(seed: u64, histories: usize, steps: usize, m
                     events.push(e);
                     continue;
                 }
-                let op = ["d_next", "d_next_back", "d_len", "d_drop", "d_drop"][rng.below(5)];
+                let op = ["d_next", "d_next_back", "d_len", "d_drop", "d_drop", "d_nth", "d_nth_back", "d_count", "d_last", "d_collect",
+                          "d_rcollect", "d_next", "d_next_back"][rng.below(13)];
+                if op == "d_nth" || op == "d_nth_back" {
+                    let n = rng.below(4);
+                    let a = json!({"n": n});
+                    let r = m.call(op, &a, &[n], LenMode::True);
+                    emit(&m, op, &a, &r, &mut events);
+                    continue;
+                }
                 let r = m.call(op, &noarg, &[], LenMode::True);
                 emit(&m, op, &noarg, &r, &mut events);
                 continue;
@@ -143,7 +151,7 @@ fn hist<T: CellT + std::hash::Hash>(seed: u64, histories: usize, steps: usize, m
                 20 => {
                     let (sc, sr) = (rng.below(c + 1), rng.below(r_ + 1));
                     let (ec, er) = (sc + rng.below(c - sc + 1), sr + rng.below(r_ - sr + 1));
-                    ("from_view", json!({"s": [sc, sr], "e": [ec, er]}))
+                    ("from_view", json!({"s": [sc, sr], "e": [ec, er], "m": rng.below(2)}))
                 }
                 _ => ("reserve_exact", json!({"k": rng.below(5)})),
             };
